@@ -92,7 +92,7 @@ func rulesC03(e *Engine, r *Report) {
 	}
 
 	// ---------------------------------------------------------------- R03.3
-	r.Rule("R03.3", "held files are re-examined: after a successful delivery finalize passes fromWait(path) and queues what it returns; every `return false` of isFileReady parks the file (toWait); a failed Move with the file still present re-arms a timer that queues the file again")
+	r.Rule("R03.3", "held files are re-examined: after a successful delivery finalize passes fromWait(path) and queues what it returns; every `return false` of isFileReady parks the file (toWait); every failure of the deliverer after the log record - the target's directory cannot be made, the move fails - re-arms a timer that queues the file again, unless the parked file itself is found gone (the error of the move says nothing about which end is missing)")
 	if fn := needFn(e, r, "R03.3", "stage.(*Stage).finalize"); fn != nil {
 		edges := e.ifEdges(fn, "(call(stage.(*Stage).putFileAway)(p0, p1)#1 == nil)")
 		cls := labeler(I("call(stage.(*Stage).fromWait)(p0, p1.path)", "fromWait"))
@@ -122,20 +122,36 @@ func rulesC03(e *Engine, r *Report) {
 		r.Min("R03.3", "return-false path classes of isFileReady", n, 1)
 	}
 	if fn := needFn(e, r, "R03.3", "stage.(*Stage).putFileAway"); fn != nil {
-		edges := e.ifEdges(fn, "!call(os.IsNotExist)(call(fileutil.Move)(§))")
-		cls := labeler(I("call(time.AfterFunc)(§, closure(§))", "rearmed"))
-		for _, ed := range edges {
-			e.GuardedFrom(r, "R03.3", "stage.(*Stage).putFileAway: Move failed, file still present", fn,
-				FlowOpts{Classify: cls, Target: isReturn, StartEdge: ed.B, StartSucc: ed.Succ},
-				func(l LabelSet) bool { return l.Has("rearmed") }, "time.AfterFunc(…, requeue) armed")
-		}
-		r.Min("R03.3", "`Move failed but file exists` edge", len(edges), 1)
+		// closures of the deliverer that arm a timer whose function queues the file again
+		rearm := []L{I("call(time.AfterFunc)(§, closure(§))", "rearmed")}
 		okq := false
-		for _, cf := range fn.AnonFuncs {
+		for _, cf := range WithClosures(fn) {
+			if cf == fn {
+				continue
+			}
 			if len(e.findInstrs(cf, "«(go )?»call(stage.(*Stage).finalizeQueue)(§)", false)) > 0 {
 				okq = true
 			}
+			if len(e.findInstrs(cf, "call(time.AfterFunc)(§, closure(§))", false)) > 0 {
+				rearm = append(rearm, I("call("+e.ShortName(cf)+")(§)", "rearmed"), I("dyn(closure("+e.ShortName(cf)+"))(§)", "rearmed"))
+			}
 		}
+		ls := append(rearm,
+			C("(call(os.MkdirAll)(§) != nil)", "failed"),
+			C("(call(fileutil.Move)(§) != nil)", "failed"),
+			// the parked file itself is gone: nothing to try again with
+			C("(call(os.Stat)((p1.path + \".wait\"))#1 != nil)", "parkedGone"),
+		)
+		n := 0
+		for _, rw := range e.returnWorlds(r, "R03.3", fn, labeler(ls...)) {
+			if !rw.W.Has("failed") {
+				continue
+			}
+			n++
+			r.Check(rw.W.HasAny("rearmed", "parkedGone"), "R03.3", fmt.Sprintf("stage.(*Stage).putFileAway: a delivery that failed is tried again (return b%d %s)", rw.In.Block().Index, rw.W.String()), e.InstrPos(rw.In),
+				"the deliverer returns after a failed MkdirAll or Move without arming the retry although the parked file is (as far as it knows) still there: the file stays validated - the sender is told `passed` - and nothing looks at it again until a restart", 1, rw.W.String())
+		}
+		r.Min("R03.3", "failure returns of the deliverer", n, 2)
 		r.Check(okq, "R03.3", "stage.(*Stage).putFileAway: retry closure queues the file", e.Pos(fn.Pos()), "the retry timer does not put the file back on the finalize queue", 1)
 	}
 
